@@ -110,6 +110,18 @@ CHECKS["C10"] = {
     "note": "NOT decided: digit-level exactness of parse_float_string / the string→number conversion, integer/fraction spelling at boundary values beyond the guards read. Trusted: IEEE semantics of MIR float ops, Number::from_f64, Rust's float parser.",
     "technique": "dominance + constant reading on the conversion function; return-path and reach scans over operator units; operation/operand-order reading from MIR BinaryOps; call-graph routing",
 }
+CHECKS["C15"] = {
+    "level": "other",
+    "text": "merge: one forward pass over the operand list itself (the consumer's iterator derives from the operand-vector parameter, nothing substituted), one switch on each operand's outer kind, Array operands contribute a clone of each element through one non-nested pass, every other kind a clone of the operand itself, no recursion, result only appended to. in: operand 0 needle / operand 1 haystack; by variant specialisation a Null haystack is constant false, an Array haystack is any(elements, membership equality with the needle), a String haystack with a String needle is exactly str::contains(haystack, needle) with no other path to a boolean, a non-string needle or any other haystack kind is Err; no byte-length/character-count mix; `in` never uses serde_json's Value/Number equality or slice::contains; the membership equality compares Number×Number numerically, recurses into Array×Array and (key-wise, via Map::get) Object×Object, and uses plain equality only for other pairs.",
+    "note": "NOT decided: that the numeric comparison inside the membership equality is the intended deep numeric equality on every nested value (e.g. integers above 2^53).",
+    "technique": "def-use rule on the iterated collection, per-kind contribution by variant specialisation, haystack/needle outcome matrix, 36-pair matrix of the membership equality, unit-of-measure taint",
+}
+CHECKS["C16"] = {
+    "level": "other",
+    "text": "substr: unit-of-measure taint — no length/offset measured in bytes reaches the skip/take counts on the character iterator, nothing mixes bytes with characters, the clamping length is chars().count(), no byte-based string operation in substr's reach; the result is chars().skip(start).take(count).collect() of operand 0's payload, start/length read with as_i64. cat: one forward pass over the operand list, each contribution appended once; per operand kind (variant specialisation of the per-operand code incl. helpers) a String contributes its payload, every other kind — null included — the shared string form of that operand. String form per kind: Null→\"null\", Object→\"[object Object]\", Bool/Number→their Display, String→itself, Array→join(\",\") of the elements where a null element contributes \"\" and every other element recurses.",
+    "note": "NOT decided: the clamping arithmetic for negative start/length on every offset, the split/recombine law as a value statement.",
+    "technique": "unit-of-measure (bytes vs chars) taint analysis; def-use shape of the slice; per-kind contribution matrices by variant specialisation; constant reading",
+}
 NOT_APPLICABLE = {}
 for i in range(1, 20):
     p = "C%02d" % i
